@@ -120,6 +120,16 @@ class BlockBase:
     fp = True
     lq, lt = 2, 4
 
+    def fp_shapes(self, tier):
+        # ordinary samples plus the edges of the stated ranges (see overlap.stress_domain)
+        return self.shapes(tier) + [dict(la=0, lb=0, K=[1, 1], M=[1, 1], profile="far-diffuse"), dict(la=1, lb=1, K=[1, 1], M=[1, 1], profile="far-diffuse"),
+                                    dict(la=0, lb=0, K=[1, 1], M=[1, 1], profile="tight-close"), dict(la=1, lb=0, K=[1, 1], M=[1, 1], profile="tight-close")]
+
+    def fp_domain_for(self, shape):
+        from .overlap import stress_domain
+
+        return stress_domain(shape.get("profile"))
+
     def shapes(self, tier):
         return _pair_shapes(tier, self.lq, self.lt)
 
@@ -203,6 +213,15 @@ class AngMomBlock(BlockBase):
 
 class MomentBlock:
     fp = True  # also sampled on the unmodified float64 code (bounded stand-in for rounding)
+
+    def fp_shapes(self, tier):
+        return self.shapes(tier) + [dict(la=0, lb=0, orders=[[0, 0, 0], [1, 0, 1]], profile="far-diffuse"), dict(la=1, lb=0, orders=[[0, 0, 0], [2, 0, 0]], profile="tight-close"),
+                                    dict(la=0, lb=1, K=[2, 1], M=[1, 1], orders=[[0, 1, 0]], profile="tight-close")]
+
+    def fp_domain_for(self, shape):
+        from .overlap import stress_domain
+
+        return stress_domain(shape.get("profile"))
     """Moment.construct_array_contraction(s1, s2, origin, orders)[m1,c1,m2,c2,d] =
     <phi~1| (x-X)^i (y-Y)^j (z-Z)^k |phi~2> for orders[d] = (i,j,k), in the order given; argument validation"""
 
